@@ -201,7 +201,9 @@ func main() {
 				defer wg.Done()
 				defer func() { <-sem }()
 				tag := fmt.Sprintf("case-%d", c.Idx)
-				j, l := runWorker(tag, "-only", fmt.Sprint(c.Idx))
+				cf := writeCases(runDir, tag, []fw.Case{c})
+				j, l := runWorker(tag, "-cases", cf)
+				os.Remove(cf)
 				open, done := parse(j)
 				if !done {
 					if open < 0 {
@@ -243,12 +245,17 @@ func main() {
 				defer wg.Done()
 				defer func() { <-sem }()
 				from := 0
+				var mine []fw.Case
+				for _, c := range cases {
+					if c.Idx%n == sh || replayIdx >= 0 {
+						mine = append(mine, c)
+					}
+				}
+				cf := writeCases(runDir, fmt.Sprintf("shard-%d", sh), mine)
+				defer os.Remove(cf)
 				for attempt := 0; attempt < batch+2; attempt++ {
 					tag := fmt.Sprintf("shard-%d-%d", sh, attempt)
-					args := []string{"-shard", fmt.Sprint(sh), "-of", fmt.Sprint(n), "-from", fmt.Sprint(from)}
-					if replayIdx >= 0 {
-						args = []string{"-only", fmt.Sprint(replayIdx)}
-					}
+					args := []string{"-cases", cf, "-from", fmt.Sprint(from)}
 					j, l := runWorker(tag, args...)
 					open, done := parse(j)
 					if done {
@@ -455,6 +462,24 @@ func main() {
 		os.RemoveAll(runDir)
 	}
 	os.Exit(exit)
+}
+
+// writeCases writes a batch of cases for one worker process.
+func writeCases(dir, tag string, cs []fw.Case) string {
+	path := filepath.Join(dir, tag+".cases")
+	f, err := os.Create(path)
+	if err != nil {
+		return path
+	}
+	w := bufio.NewWriter(f)
+	for _, c := range cs {
+		b, _ := json.Marshal(c)
+		w.Write(b)
+		w.WriteString("\n")
+	}
+	w.Flush()
+	f.Close()
+	return path
 }
 
 func trimSample(d any) any {
